@@ -667,6 +667,21 @@ func c12(c *Ctx) {
 		}
 	})
 
+	if c.Tier == "thorough" {
+		c.Rule("C12.R6", "thorough: per the VTA call graph the cache writers are called only on the Run goroutine", 2, func(r *Rule) {
+			if run == nil || hi == nil || dr == nil {
+				r.Unresolved("Run / handleInstanceInfo / doRefresh")
+				return
+			}
+			owned := ownedBy(w, run, P)
+			for _, fn := range []*ssa.Function{hi, dr} {
+				for _, caller := range vtaCallersOf(w, fn) {
+					r.Check("vta-caller:"+fn.Name()+":"+FuncName(caller), owned[caller] || caller.Synthetic != "", caller.Pos(), FuncName(caller)+" may call "+fn.Name()+" per VTA")
+				}
+			}
+		})
+	}
+
 	c.Rule("C12.R5", "refresh: idle entries are scheduled for eviction (idle tested before TTL), other expired entries are re-queried, evictions are applied", 3, func(r *Rule) {
 		if dr == nil || run == nil {
 			r.Unresolved("doRefresh / Run")
